@@ -1,6 +1,568 @@
-//! C12 monitor (not built yet)
-use vcore::{Args, Report};
+//! C12 — stream limits, stream direction and final size are enforced.
+//!
+//! Leg 1 (one victim endpoint, hostile peer): for both roles, initial stream counts
+//! {0,1,2,10,100} and both concurrency strategies of qbase/src/sid/handy.rs, a table of peer
+//! frames with the outcome RFC 9000 requires: stream index >= advertised maximum => STREAM_LIMIT_ERROR
+//! (§4.6, §19.11); STREAM / RESET_STREAM / STREAM_DATA_BLOCKED on a stream the victim opened as
+//! send-only, STOP_SENDING / MAX_STREAM_DATA on a stream the victim only receives on =>
+//! STREAM_STATE_ERROR (§19.4, 19.5, 19.8, 19.10, 19.13); data beyond / FIN different from / RESET
+//! different from a known final size, final size below received data => FINAL_SIZE_ERROR (§4.5).
+//! Implicit open (§3.2 / §2.1): using index k makes exactly prev..=k appear on accept, once, in order.
+//! Local opens: ids in order and < granted; MAX_STREAMS only ever raises; originated MAX_STREAMS never decrease.
+//! Leg 2 (two honest endpoints, streams_h.rs): the same ledger over generated open-heavy histories.
+use qbase::sid::Dir;
+use serde_json::{Value, json};
+use vcore::{Args, Report, Rng};
 
-pub fn run(_args: &Args, rep: &mut Report) {
-    rep.inconclusive("monitor not built yet");
+use crate::{c01::{features_hash, report_case}, streams_h::*};
+
+const COUNTS: [u64; 5] = [0, 1, 2, 10, 100];
+
+fn cfg_for(victim: Side, bidi: u64, uni: u64, demand: bool, peer_bidi: u64, peer_uni: u64) -> Cfg {
+    let vl = Limits { max_data: 1 << 30, bidi_local: 1 << 20, bidi_remote: 1 << 20, uni: 1 << 20, streams_bidi: bidi, streams_uni: uni };
+    let pl = Limits { max_data: 1 << 30, bidi_local: 1 << 20, bidi_remote: 1 << 20, uni: 1 << 20, streams_bidi: peer_bidi, streams_uni: peer_uni };
+    let lim = if victim == Side::C { [vl, pl] } else { [pl, vl] };
+    Cfg { lim, demand: [demand, demand], cseed: 0 }
+}
+
+#[derive(Clone, Debug)]
+enum Expect {
+    Ok,
+    Err(&'static str),
+}
+
+struct Scen {
+    cfg: Cfg,
+    victim: Side,
+    steps: Vec<HStep>,
+    expect: Expect,
+    /// signature stem, e.g. "limit.accept-index-equals-max"
+    clause: String,
+    what: String,
+}
+
+fn frame_name(s: &HStep) -> &'static str {
+    match s {
+        HStep::Stream { fin: false, .. } => "stream",
+        HStep::Stream { fin: true, .. } => "stream-fin",
+        HStep::Reset { .. } => "reset_stream",
+        HStep::Stop { .. } => "stop_sending",
+        HStep::MaxStreamData { .. } => "max_stream_data",
+        HStep::StreamDataBlocked { .. } => "stream_data_blocked",
+        HStep::MaxStreams { .. } => "max_streams",
+        HStep::StreamsBlocked { .. } => "streams_blocked",
+        _ => "app",
+    }
+}
+
+/// the frames a peer can use to refer to a stream (by kind index)
+fn ref_frame(kind: u64, sid: u64) -> HStep {
+    match kind {
+        0 => HStep::Stream { sid, off: 0, len: 3, fin: false },
+        1 => HStep::Reset { sid, code: 9, final_size: 3 },
+        2 => HStep::StreamDataBlocked { sid, v: 5 },
+        3 => HStep::Stop { sid, code: 9 },
+        4 => HStep::MaxStreamData { sid, v: 77 },
+        _ => HStep::Stream { sid, off: 0, len: 3, fin: true },
+    }
+}
+
+fn eval(rep: &mut Report, sc: &Scen, run: &HRun) {
+    rep.evaluations += 1;
+    let last = sc.steps.len() - 1;
+    let replay = || hostile_replay("c12-hostile", &sc.cfg, sc.victim, &sc.steps, json!({"clause": sc.clause, "expect": match &sc.expect { Expect::Ok => "Ok", Expect::Err(k) => k }, "what": sc.what}));
+    for (i, r) in run.results.iter().enumerate() {
+        match r {
+            HRes::Panic(loc, msg) => {
+                rep.violation(format!("C12.panic:{loc}"), format!("{}: step {i} {:?} panicked: {msg}", sc.what, sc.steps[i]), replay());
+                return;
+            }
+            HRes::Err(kind, reason) if i < last => {
+                rep.inconclusive(format!("c12 scenario {}: prefix step {i} {:?} refused with {kind}: {reason}", sc.clause, sc.steps[i]));
+                return;
+            }
+            _ => {}
+        }
+    }
+    let fname = frame_name(&sc.steps[last]);
+    match (&sc.expect, &run.results[last]) {
+        (Expect::Err(k), HRes::Err(kind, _)) if kind == k => {
+            rep.count(&format!("hostile_refused_{k}"));
+            rep.set("refused_frame_kinds", vcore::fnv_str(&format!("{k}{fname}")));
+            rep.distinct(vcore::fnv_str(&format!("{:?}{:?}{:?}", sc.cfg, sc.victim, sc.steps)));
+        }
+        (Expect::Ok, HRes::Ok(_)) => {
+            rep.count("legal_frames_accepted");
+            rep.distinct(vcore::fnv_str(&format!("{:?}{:?}{:?}", sc.cfg, sc.victim, sc.steps)));
+        }
+        (Expect::Err(k), HRes::Ok(_)) => rep.violation(format!("C12.{}", sc.clause), format!("{}: {fname} was accepted, {k} required", sc.what), replay()),
+        (Expect::Err(k), HRes::Err(kind, reason)) => rep.violation(format!("C12.{}:wrong-error:{kind}", sc.clause), format!("{}: {fname} answered with {kind} ({reason}), {k} required", sc.what), replay()),
+        (Expect::Ok, HRes::Err(kind, reason)) => rep.violation(format!("C12.{}:legal-frame-refused:{kind}", sc.clause), format!("{}: legal {fname} refused with {kind}: {reason}", sc.what), replay()),
+        (_, other) => rep.inconclusive(format!("c12 scenario ended with {other:?}")),
+    }
+}
+
+fn judge(rep: &mut Report, sc: Scen) {
+    let run = run_hostile(&sc.cfg, sc.victim, &sc.steps);
+    eval(rep, &sc, &run);
+}
+
+/// advertised maximum stream count of the victim after `prefix`
+fn advertised_max(cfg: &Cfg, victim: Side, prefix: &[HStep], dir: Dir) -> u64 {
+    let init = if dir == Dir::Bi { cfg.lim[victim.ix()].streams_bidi } else { cfg.lim[victim.ix()].streams_uni };
+    let run = run_hostile(cfg, victim, prefix);
+    let mut a = init;
+    for c in &run.originated {
+        if let Ctl::Sc(qbase::frame::StreamCtlFrame::MaxStreams(m)) = c {
+            let (d, v) = match m {
+                qbase::frame::MaxStreamsFrame::Bi(v) => (Dir::Bi, v.into_u64()),
+                qbase::frame::MaxStreamsFrame::Uni(v) => (Dir::Uni, v.into_u64()),
+            };
+            if d == dir {
+                a = a.max(v);
+            }
+        }
+    }
+    a
+}
+
+fn limit_scenarios(rep: &mut Report, shard: u64, shards: u64) {
+    let mut n = 0u64;
+    for victim in [Side::C, Side::S] {
+        for demand in [false, true] {
+            for &m in &COUNTS {
+                for dir in [Dir::Bi, Dir::Uni] {
+                    for kind in 0..6u64 {
+                        // STOP_SENDING / MAX_STREAM_DATA refer to the sending part: bidirectional streams only
+                        if dir == Dir::Uni && (kind == 3 || kind == 4) {
+                            continue;
+                        }
+                        for raised in [false, true] {
+                            // `raised`: the limit was moved by the strategy first (demand: STREAMS_BLOCKED; consistent: a finished stream)
+                            let cfg = cfg_for(victim, m, m, demand, 10, 10);
+                            let peer = victim.peer().role();
+                            let mut prefix = vec![];
+                            if raised {
+                                if demand {
+                                    prefix.push(HStep::StreamsBlocked { dir, v: m });
+                                } else {
+                                    if m == 0 || dir == Dir::Bi {
+                                        continue;
+                                    }
+                                    // finish peer uni stream 0 completely: consistent concurrency grants one more
+                                    prefix.push(HStep::Stream { sid: mk_sid(peer, Dir::Uni, 0), off: 0, len: 2, fin: true });
+                                }
+                            }
+                            let adv = advertised_max(&cfg, victim, &prefix, dir);
+                            if raised && adv == m {
+                                continue;
+                            }
+                            for k in [adv.wrapping_sub(1), adv, adv + 1, adv + 1000, (1 << 60) - 1] {
+                                if k == u64::MAX || k > (1 << 60) - 1 {
+                                    continue;
+                                }
+                                n += 1;
+                                if n % shards != shard {
+                                    continue;
+                                }
+                                let mut steps = prefix.clone();
+                                steps.push(ref_frame(kind, mk_sid(peer, dir, k)));
+                                let (expect, clause) = if k < adv {
+                                    (Expect::Ok, "limit.below-max".to_string())
+                                } else if k == adv {
+                                    (Expect::Err("StreamLimit"), "limit.accept-index-equals-max".to_string())
+                                } else {
+                                    (Expect::Err("StreamLimit"), "limit.accept-index-above-max".to_string())
+                                };
+                                judge(rep, Scen { cfg: cfg.clone(), victim, steps, expect, clause, what: format!("victim {victim:?} ({}) advertises {adv} {dir:?} streams (initial {m}); peer uses index {k}", if demand { "demand" } else { "consistent" }) });
+                            }
+                        }
+                    }
+                }
+            }
+        }
+    }
+    rep.add("limit_table_rows_total", n);
+}
+
+fn direction_scenarios(rep: &mut Report) {
+    for victim in [Side::C, Side::S] {
+        let cfg = cfg_for(victim, 10, 10, false, 10, 10);
+        let me = victim.role();
+        let peer = victim.peer().role();
+        for index in [0u64, 3] {
+            // stream the victim opened as send-only: the peer must not send on it
+            for kind in [0u64, 1, 2, 5] {
+                let mut steps: Vec<HStep> = (0..=index).map(|_| HStep::Open(Dir::Uni)).collect();
+                steps.push(ref_frame(kind, mk_sid(me, Dir::Uni, index)));
+                judge(rep, Scen { cfg: cfg.clone(), victim, steps, expect: Expect::Err("StreamState"), clause: "direction.peer-sends-on-victims-send-only-stream".into(), what: format!("victim {victim:?} opened uni stream {index}") });
+            }
+            // stream the victim only receives on: the peer must not ask to stop sending / raise the send window
+            for kind in [3u64, 4] {
+                for known in [false, true] {
+                    let sid = mk_sid(peer, Dir::Uni, index);
+                    let mut steps = vec![];
+                    if known {
+                        steps.push(HStep::Stream { sid, off: 0, len: 1, fin: false });
+                    }
+                    steps.push(ref_frame(kind, sid));
+                    judge(rep, Scen { cfg: cfg.clone(), victim, steps, expect: Expect::Err("StreamState"), clause: "direction.send-side-frame-on-victims-receive-only-stream".into(), what: format!("peer uni stream {index} of victim {victim:?} (known before: {known})") });
+                }
+            }
+            // controls: the same frames on bidirectional streams are legal
+            for kind in 0..6u64 {
+                let mut steps: Vec<HStep> = (0..=index).map(|_| HStep::Open(Dir::Bi)).collect();
+                steps.push(ref_frame(kind, mk_sid(me, Dir::Bi, index)));
+                judge(rep, Scen { cfg: cfg.clone(), victim, steps, expect: Expect::Ok, clause: "direction.control-own-bidi".into(), what: format!("victim {victim:?} opened bidi stream {index}") });
+                judge(rep, Scen { cfg: cfg.clone(), victim, steps: vec![ref_frame(kind, mk_sid(peer, Dir::Bi, index))], expect: Expect::Ok, clause: "direction.control-peer-bidi".into(), what: format!("peer bidi stream {index}") });
+            }
+            // observation only (not in the property statement): frames for a local stream that was never opened
+            for kind in [0u64, 3, 4] {
+                let run = run_hostile(&cfg, victim, &[ref_frame(kind, mk_sid(me, Dir::Bi, index))]);
+                match &run.results[0] {
+                    HRes::Err(k, _) => rep.count(&format!("obs_frame_on_unopened_local_stream_refused_{k}")),
+                    HRes::Ok(_) => rep.count("obs_frame_on_unopened_local_stream_accepted"),
+                    HRes::Panic(loc, msg) => rep.violation(format!("C12.panic:{loc}"), format!("frame on unopened local stream panicked: {msg}"), hostile_replay("c12-hostile", &cfg, victim, &[ref_frame(kind, mk_sid(me, Dir::Bi, index))], json!({"clause": "panic", "expect": "Ok", "what": ""}))),
+                    _ => {}
+                }
+            }
+        }
+    }
+}
+
+fn final_size_scenarios(rep: &mut Report) {
+    for victim in [Side::C, Side::S] {
+        let cfg = cfg_for(victim, 10, 10, false, 10, 10);
+        let me = victim.role();
+        let peer = victim.peer().role();
+        for (own, dir) in [(false, Dir::Uni), (false, Dir::Bi), (true, Dir::Bi)] {
+            let sid = if own { mk_sid(me, dir, 0) } else { mk_sid(peer, dir, 1) };
+            let open: Vec<HStep> = if own { vec![HStep::Open(Dir::Bi)] } else { vec![] };
+            let s = |off: u64, len: usize, fin: bool| HStep::Stream { sid, off, len, fin };
+            let rst = |fs: u64| HStep::Reset { sid, code: 3, final_size: fs };
+            // final size 15 known, bytes 0..10 still missing (receiver keeps the stream in "size known")
+            let size_known = vec![s(10, 5, true)];
+            // 15 bytes received, no FIN yet
+            let recv15 = vec![s(0, 15, false)];
+            // partly read by the application
+            let recv15_read = vec![s(0, 15, false), HStep::AcceptAll, HStep::ReadAll];
+            let table: Vec<(&str, Vec<HStep>, HStep, Expect)> = vec![
+                ("data-beyond-final-size", size_known.clone(), s(15, 1, false), Expect::Err("FinalSize")),
+                ("data-beyond-final-size", size_known.clone(), s(20, 3, false), Expect::Err("FinalSize")),
+                ("data-beyond-final-size", size_known.clone(), s(5, 11, false), Expect::Err("FinalSize")),
+                ("fin-changes-final-size", size_known.clone(), s(0, 5, true), Expect::Err("FinalSize")),
+                ("fin-changes-final-size", size_known.clone(), s(10, 7, true), Expect::Err("FinalSize")),
+                ("fin-changes-final-size", size_known.clone(), s(14, 0, true), Expect::Err("FinalSize")),
+                ("reset-changes-final-size", size_known.clone(), rst(14), Expect::Err("FinalSize")),
+                ("reset-changes-final-size", size_known.clone(), rst(16), Expect::Err("FinalSize")),
+                ("reset-changes-final-size", size_known.clone(), rst(0), Expect::Err("FinalSize")),
+                ("fin-below-received", recv15.clone(), s(0, 3, true), Expect::Err("FinalSize")),
+                ("fin-below-received", recv15.clone(), s(14, 0, true), Expect::Err("FinalSize")),
+                ("fin-below-received", recv15_read.clone(), s(3, 4, true), Expect::Err("FinalSize")),
+                ("reset-below-received", recv15.clone(), rst(14), Expect::Err("FinalSize")),
+                ("reset-below-received", recv15.clone(), rst(0), Expect::Err("FinalSize")),
+                ("reset-below-received", recv15_read.clone(), rst(7), Expect::Err("FinalSize")),
+                // controls: consistent final sizes are legal
+                ("control", size_known.clone(), s(10, 5, true), Expect::Ok),
+                ("control", size_known.clone(), s(0, 15, true), Expect::Ok),
+                ("control", size_known.clone(), s(3, 4, false), Expect::Ok),
+                ("control", size_known.clone(), rst(15), Expect::Ok),
+                ("control", recv15.clone(), s(15, 0, true), Expect::Ok),
+                ("control", recv15.clone(), s(10, 9, true), Expect::Ok),
+                ("control", recv15.clone(), rst(15), Expect::Ok),
+                ("control", recv15.clone(), rst(400), Expect::Ok),
+            ];
+            for (name, prefix, hostile, expect) in table {
+                let mut steps = open.clone();
+                steps.extend(prefix);
+                steps.push(hostile);
+                judge(rep, Scen { cfg: cfg.clone(), victim, steps, expect, clause: format!("final-size.{name}"), what: format!("victim {victim:?}, {} {dir:?} stream", if own { "own" } else { "peer" }) });
+            }
+        }
+    }
+}
+
+fn implicit_open_scenarios(rep: &mut Report, rng: &mut Rng, n: u64) {
+    for _ in 0..n {
+        let victim = if rng.bool() { Side::C } else { Side::S };
+        let demand = rng.bool();
+        let m = *rng.pick(&[1u64, 2, 10, 100]);
+        let cfg = cfg_for(victim, m, m, demand, 10, 10);
+        let peer = victim.peer().role();
+        let mut steps = vec![];
+        // model: next unseen index per direction, expected accept order
+        let mut next = [0u64; 2];
+        let mut expected: Vec<(Dir, u64)> = vec![];
+        let mut pending: Vec<(Dir, u64)> = vec![];
+        for _ in 0..rng.range(1, 8) {
+            let dir = if rng.bool() { Dir::Bi } else { Dir::Uni };
+            let d = dir_u(dir) as usize;
+            let k = rng.below(m); // always below the limit: legal use
+            let kind = loop {
+                let kd = rng.below(6);
+                if !(dir == Dir::Uni && (kd == 3 || kd == 4)) {
+                    break kd;
+                }
+            };
+            steps.push(ref_frame(kind, mk_sid(peer, dir, k)));
+            while next[d] <= k {
+                pending.push((dir, next[d]));
+                next[d] += 1;
+            }
+            if rng.chance(1, 2) {
+                steps.push(HStep::AcceptAll);
+                // accept order within one AcceptAll: all bidi first, then all uni (the harness polls in that order)
+                pending.sort_by_key(|(dd, i)| (dir_u(*dd), *i));
+                expected.append(&mut pending);
+            }
+        }
+        steps.push(HStep::AcceptAll);
+        pending.sort_by_key(|(dd, i)| (dir_u(*dd), *i));
+        expected.append(&mut pending);
+        let run = run_hostile(&cfg, victim, &steps);
+        rep.evaluations += 1;
+        let replay = hostile_replay("c12-implicit", &cfg, victim, &steps, json!({"clause": "implicit-open", "expect": "Ok", "what": ""}));
+        if let Some((i, r)) = run.results.iter().enumerate().find(|(_, r)| matches!(r, HRes::Err(..) | HRes::Panic(..))) {
+            match r {
+                HRes::Panic(loc, msg) => rep.violation(format!("C12.panic:{loc}"), format!("implicit-open scenario step {i} panicked: {msg}"), replay),
+                HRes::Err(kind, reason) => rep.violation(format!("C12.implicit-open.legal-frame-refused:{kind}"), format!("legal frame {:?} (index below the limit {m}) refused: {reason}", steps[i]), replay),
+                _ => {}
+            }
+            continue;
+        }
+        check_implicit(rep, &run.accepted, &expected, replay);
+        rep.add("implicit_open_streams_accepted", run.accepted.len() as u64);
+        rep.distinct(vcore::fnv_str(&format!("{:?}{:?}", victim, steps)));
+    }
+}
+
+fn check_implicit(rep: &mut Report, got: &[(Dir, u64)], expected: &[(Dir, u64)], replay: Value) {
+    if got == expected {
+        rep.count("implicit_open_histories_exact");
+        return;
+    }
+    let mut sorted = got.to_vec();
+    sorted.sort_by_key(|(d, i)| (dir_u(*d), *i));
+    let mut dedup = sorted.clone();
+    dedup.dedup();
+    let mut exp_sorted = expected.to_vec();
+    exp_sorted.sort_by_key(|(d, i)| (dir_u(*d), *i));
+    let clause = if dedup.len() != sorted.len() {
+        "implicit-open.offered-twice"
+    } else if sorted.len() < exp_sorted.len() {
+        "implicit-open.stream-missing"
+    } else if sorted.len() > exp_sorted.len() {
+        "implicit-open.extra-stream"
+    } else {
+        "implicit-open.accept-order"
+    };
+    rep.violation(format!("C12.{clause}"), format!("accept yielded {got:?}, implicit-open model requires {expected:?}"), replay);
+}
+
+fn local_open_scenarios(rep: &mut Report) {
+    for victim in [Side::C, Side::S] {
+        for &g in &COUNTS {
+            for dir in [Dir::Bi, Dir::Uni] {
+                for bump in [0u64, 1, 5] {
+                    rep.evaluations += 1;
+                    let cfg = cfg_for(victim, 10, 10, false, g, g);
+                    let tries = (g + 2).min(14);
+                    let mut steps: Vec<HStep> = (0..tries).map(|_| HStep::Open(dir)).collect();
+                    // a lower and an equal MAX_STREAMS must change nothing, a higher one grants exactly the difference
+                    steps.push(HStep::MaxStreams { dir, v: g.saturating_sub(1) });
+                    steps.push(HStep::MaxStreams { dir, v: g });
+                    steps.push(HStep::Open(dir));
+                    steps.push(HStep::MaxStreams { dir, v: g + bump });
+                    // a stale lower value after the raise must be ignored as well
+                    steps.push(HStep::MaxStreams { dir, v: g.saturating_sub(1) });
+                    for _ in 0..bump + 1 {
+                        steps.push(HStep::Open(dir));
+                    }
+                    let run = run_hostile(&cfg, victim, &steps);
+                    let replay = hostile_replay("c12-local-open", &cfg, victim, &steps, json!({"clause": "open", "expect": "Ok", "what": format!("granted {g} bump {bump}")}));
+                    if let Some((i, HRes::Panic(loc, msg))) = run.results.iter().enumerate().find(|(_, r)| matches!(r, HRes::Panic(..))) {
+                        rep.violation(format!("C12.panic:{loc}"), format!("local-open scenario step {i} panicked: {msg}"), replay);
+                        continue;
+                    }
+                    // model
+                    let mut granted = g;
+                    let mut next = 0u64;
+                    let mut bad = None;
+                    for (i, st) in steps.iter().enumerate() {
+                        match st {
+                            HStep::MaxStreams { v, .. } => granted = granted.max(*v),
+                            HStep::Open(_) => {
+                                let HRes::App(got) = &run.results[i] else { continue };
+                                if next < granted {
+                                    let want = mk_sid(victim.role(), dir, next);
+                                    if got != &vec![want] {
+                                        bad = Some(("open.blocked-below-limit-or-wrong-id", format!("open #{i}: expected stream index {next} (granted {granted}), got raw ids {got:?}")));
+                                        break;
+                                    }
+                                    next += 1;
+                                } else if !got.is_empty() {
+                                    bad = Some(("open.beyond-limit", format!("open #{i} returned raw ids {got:?} although only {granted} streams are granted and {next} are open")));
+                                    break;
+                                }
+                            }
+                            _ => {}
+                        }
+                    }
+                    match bad {
+                        Some((clause, d)) => rep.violation(format!("C12.{clause}"), format!("victim {victim:?} {dir:?} granted {g}: {d}"), replay),
+                        None => {
+                            rep.count("local_open_histories_conform");
+                            rep.add("local_opens_checked", next);
+                            let blocked = run.originated.iter().filter(|c| c.name() == "streams_blocked").count();
+                            rep.add("streams_blocked_frames_seen", blocked as u64);
+                            rep.distinct(vcore::fnv_str(&format!("{:?}{:?}{}{}", victim, dir, g, bump)));
+                        }
+                    }
+                }
+            }
+        }
+    }
+}
+
+fn advertise_scenarios(rep: &mut Report) {
+    for victim in [Side::C, Side::S] {
+        for demand in [false, true] {
+            for &m in &COUNTS {
+                for dir in [Dir::Bi, Dir::Uni] {
+                    for seq in [vec![m], vec![m, m + 1], vec![m, 0], vec![m, m + 1, m], vec![0], vec![m.saturating_sub(1)], vec![m + 5, m]] {
+                        rep.evaluations += 1;
+                        let cfg = cfg_for(victim, m, m, demand, 10, 10);
+                        let steps: Vec<HStep> = seq.iter().map(|v| HStep::StreamsBlocked { dir, v: *v }).collect();
+                        let run = run_hostile(&cfg, victim, &steps);
+                        let replay = hostile_replay("c12-advertise", &cfg, victim, &steps, json!({"clause": "advertise", "expect": "Ok", "what": ""}));
+                        if let Some((i, HRes::Panic(loc, msg))) = run.results.iter().enumerate().find(|(_, r)| matches!(r, HRes::Panic(..))) {
+                            rep.violation(format!("C12.panic:{loc}"), format!("STREAMS_BLOCKED step {i} panicked: {msg}"), replay);
+                            continue;
+                        }
+                        let mut adv = m;
+                        let mut bad = None;
+                        for c in &run.originated {
+                            if let Ctl::Sc(qbase::frame::StreamCtlFrame::MaxStreams(f)) = c {
+                                let (d, v) = match f {
+                                    qbase::frame::MaxStreamsFrame::Bi(v) => (Dir::Bi, v.into_u64()),
+                                    qbase::frame::MaxStreamsFrame::Uni(v) => (Dir::Uni, v.into_u64()),
+                                };
+                                if d != dir {
+                                    continue;
+                                }
+                                rep.count("max_streams_originated_checked");
+                                if v < adv {
+                                    bad = Some(format!("victim {victim:?} originated MAX_STREAMS({dir:?}) = {v} after having advertised {adv} (peer sent STREAMS_BLOCKED {seq:?})"));
+                                    break;
+                                }
+                                adv = v;
+                            }
+                        }
+                        match bad {
+                            Some(d) => rep.violation(format!("C12.advertise.max-streams-decreased:{}", if demand { "demand-concurrency" } else { "consistent-concurrency" }), d, replay),
+                            None => rep.count("advertise_histories_monotone"),
+                        }
+                    }
+                }
+            }
+        }
+    }
+}
+
+fn run_e2e(rep: &mut Report, cfg: &Cfg, ops: &[Op], fin: bool) -> Option<CaseOut> {
+    let r = vcore::panics::catch(|| run_case(cfg, ops, fin, false));
+    rep.evaluations += 1;
+    match r {
+        Ok(out) => {
+            report_case(rep, "C12", "c12-e2e", cfg, ops, fin, &out);
+            Some(out)
+        }
+        Err(p) => {
+            let loc = vcore::panics::short_location(&p.location);
+            rep.violation(format!("C12.panic:{loc}"), format!("panic outside the guarded calls: {} at {}", p.message, p.location), case_replay("c12-e2e", cfg, ops, ops.len(), fin));
+            None
+        }
+    }
+}
+
+fn replay(rep: &mut Report, v: &Value) {
+    let kind = v["kind"].as_str().unwrap_or("");
+    if kind == "c12-e2e" {
+        let (cfg, ops, fin) = case_from_replay(v);
+        run_e2e(rep, &cfg, &ops, fin);
+        return;
+    }
+    let (cfg, victim, steps, ex) = hostile_from_replay(v);
+    let run = run_hostile(&cfg, victim, &steps);
+    match kind {
+        "c12-hostile" => {
+            let expect = match ex["expect"].as_str().unwrap_or("Ok") {
+                "StreamLimit" => Expect::Err("StreamLimit"),
+                "StreamState" => Expect::Err("StreamState"),
+                "FinalSize" => Expect::Err("FinalSize"),
+                _ => Expect::Ok,
+            };
+            let sc = Scen { cfg, victim, steps, expect, clause: ex["clause"].as_str().unwrap_or("replay").to_string(), what: ex["what"].as_str().unwrap_or("").to_string() };
+            eval(rep, &sc, &run);
+        }
+        "c12-advertise" => {
+            rep.evaluations += 1;
+            let mut adv: [u64; 2] = [cfg.lim[victim.ix()].streams_bidi, cfg.lim[victim.ix()].streams_uni];
+            for c in &run.originated {
+                if let Ctl::Sc(qbase::frame::StreamCtlFrame::MaxStreams(f)) = c {
+                    let (d, val) = match f {
+                        qbase::frame::MaxStreamsFrame::Bi(x) => (0, x.into_u64()),
+                        qbase::frame::MaxStreamsFrame::Uni(x) => (1, x.into_u64()),
+                    };
+                    if val < adv[d] {
+                        rep.violation(format!("C12.advertise.max-streams-decreased:{}", if cfg.demand[victim.ix()] { "demand-concurrency" } else { "consistent-concurrency" }), format!("victim {victim:?} originated MAX_STREAMS = {val} after having advertised {}", adv[d]), v.clone());
+                        return;
+                    }
+                    adv[d] = val;
+                }
+            }
+        }
+        _ => rep.inconclusive(format!("replay kind {kind} is regenerated by the enumeration, not replayable on its own")),
+    }
+}
+
+pub fn run(args: &Args, rep: &mut Report) {
+    rep.rule = "hostile leg: distinct = distinct (parameters, victim role, strategy, frame list) scenarios whose outcome matched the RFC table; honest leg: distinct = distinct op \
+                lists in which at least one open was blocked by the stream limit or one MAX_STREAMS was delivered"
+        .into();
+    let rt = tokio::runtime::Builder::new_current_thread().enable_time().start_paused(true).build().unwrap();
+    let _g = rt.enter();
+    if let Some(path) = args.get("replay") {
+        let v: Value = serde_json::from_str(&std::fs::read_to_string(path).unwrap()).unwrap();
+        let v = if v.get("replay").is_some() { v["replay"].clone() } else { v };
+        replay(rep, &v);
+        return;
+    }
+    let thorough = args.get("tier") == Some("thorough");
+    let shard = args.u64("shard", 0);
+    let shards = args.u64("shards", 1);
+    limit_scenarios(rep, shard, shards);
+    if shard == 0 {
+        direction_scenarios(rep);
+        final_size_scenarios(rep);
+        local_open_scenarios(rep);
+        advertise_scenarios(rep);
+    }
+    let mut rng = Rng::new(args.seed() ^ 0xc12).fork(shard);
+    implicit_open_scenarios(rep, &mut rng, if thorough { 20_000 } else { 400 });
+    let n = args.budget(if thorough { 10_000 } else { 200 });
+    for i in 0..n {
+        let cfg = gen_cfg(&mut rng, Profile::C12);
+        let ops = gen_ops(&mut rng, Profile::C12, &cfg);
+        let Some(out) = run_e2e(rep, &cfg, &ops, true) else { continue };
+        add_stats(rep, &out.stats, &out.ledger);
+        rep.set("fault_feature_mixes", features_hash(&out.stats));
+        rep.count("e2e_cases");
+        if out.stats.open_blocked > 0 || out.ledger.max_streams_delivered > 0 {
+            rep.distinct(ops_hash(&ops) ^ cfg.cseed);
+        }
+        if i < 2 {
+            rep.sample(json!({"cfg": cfg.to_json(), "n_ops": ops.len(), "opens": out.stats.opens, "open_blocked": out.stats.open_blocked, "accepts": out.stats.accepts}));
+        }
+    }
 }
